@@ -44,6 +44,7 @@ PROPS = {
             {"name": "rapid", "pkg": "./c03", "run": "^TestRapidChains$", "rapid": T(10000, 150000), "shards": T(1, 16), "replay": "^TestReplay$"},
             {"name": "trees", "pkg": "./c03", "run": "^TestRapidTrees$", "rapid": T(15000, 150000), "shards": T(1, 16)},
             {"name": "regress", "pkg": "./c03", "run": "^TestRegress$"},
+            {"name": "write-entry", "pkg": "./c03", "run": "^TestWriteEntryPoint$", "rapid": T(3000, 50000)},
         ],
         "assumptions": LP_ASSUME + ["hooks of the LP language: add fields, discard, read GetCtx, no-op; wrapped directly, as HookFunc or as LevelHook"],
         "claim": {"ref": "DESIGN.md §5 C03", "technique": "property-based testing (rapid) over derivation chains/trees with unique keys; oracle: logger-tree reference model on the ordered key sequence + hook invocation log",
